@@ -45,7 +45,9 @@ class LZSResetViaResonator(cirq.Gate):
         return cirq.reset_each(*qubits)
 
     def _json_dict_(self) -> dict[str, Any]:
-        return {}
+        return {} if self._num_qubits == 1 else {'num_qubits': self._num_qubits}
 
     def __repr__(self) -> str:
+        if self._num_qubits != 1:
+            return f'cirq_google.LZSResetViaResonator(num_qubits={self._num_qubits})'
         return 'cirq_google.LZSResetViaResonator()'
